@@ -1041,6 +1041,17 @@ class QuantityMeta(ClassWithDefinitionMeta):
         # reference unit is created, otherwise that would be registered in
         # the map of the base class)
         cls._unit_map = {}
+        # a derived class must be checked for uniqueness before its reference
+        # unit gets created, otherwise a rejected definition would leave that
+        # unit registered
+        if define_as is not None:
+            try:
+                reg_cls = QuantityMeta._registry[cls.normalized_definition]
+            except KeyError:
+                pass
+            else:
+                raise ValueError("Item with same or equivalent definition "
+                                 f"already registered: '{reg_cls}'.")
         if ref_unit_symbol:
             cls._ref_unit = cls._make_ref_unit(ref_unit_symbol, ref_unit_name,
                                                ref_unit_def)
